@@ -40,6 +40,9 @@ def run(tier):
         elif e["ev"] == "impute":
             sig = "%s_impute data=%s side=%s" % (e.get("via", "single"), json.dumps(e["data"], sort_keys=True), e["unbalance"])
             rep.fail(clause, sig, detail=e, group=clause, replay={"data": e["data"], "db": e["db"]})
+        elif e["ev"] == "rbm":
+            sig = "RuleBasedMethod.run batch row input=%s output=%s" % (e["input"], e["output"])
+            rep.fail(clause, sig, detail=e, group=clause, replay={"input": e["input"]})
         elif e["ev"] == "parallel":
             sig = "parallel_impute data=%s parallel=%s single=%s" % (json.dumps(e["data"], sort_keys=True), e["parallel"], e["single"])
             rep.fail(clause, sig, detail=e, group=clause, replay={"data": e["data"]})
